@@ -1,5 +1,5 @@
 """Data for MANIFEST.json (bin/mkmanifest)."""
-HOOK_COMMITS = ["9ae5561"]
+HOOK_COMMITS = ["9ae5561", "4ea2e60", "1c8a90d"]
 NOTES = ("Machine-checked proof in Coq 8.16 over executable Gallina models of the back-end logic; each model is tied to /repo on every run "
          "by a correspondence run (extracted OCaml model vs the Go code on generated inputs) and/or by facts regenerated from the source "
          "(translator -> coq/gen). Oracles (math/big, encoding/*, x/net/html, node, strace) only search for failing inputs. "
@@ -24,7 +24,22 @@ ENGINES.append({"name": "Cli", "path": "coq/theories/Cli", "serves_properties": 
      "kind_free_text": "Gallina model of minify(Task)'s file-system effects per task shape (rename/truncate/write/unlink lists) over path -> option bytes, and F1 model of concatFileReader; harness/cmd/clifs (strace skeletons, real kills, fs images) + verif-tagged hook test for the reader"})
 ENGINES.append({"name": "Xml", "path": "coq/theories/Xml + coq/theories/Base/Ws.v", "serves_properties": ["C06", "C09", "C16"],
      "kind_free_text": "F2 Gallina model of xml.Minify's loop over the real lexer's tokens (white-space state machine, CDATA, attribute re-quoting), words/runs specification; harness/cmd/xmloracle (token dump + encoding/xml oracle)"})
+ENGINES.append({"name": "JsRename", "path": "coq/theories/Js/Rename*.v + coq/gen/JsTables_gen.v", "serves_properties": ["C02", "C01", "C16"],
+     "kind_free_text": "F1 Gallina model of getName/isReserved/renameScope and of whole-program renaming over the parser's scope forest; lexical resolver as specification; alphabets regenerated from source; harness/cmd/jsoracle (forest dump through the verif hook, node vm oracle)"})
 CHECKS = {
+    "C02": {
+        "engine": "JsRename", "design_ref": "DESIGN.md section 4 / C02",
+        "technique": "Coq proof (injective numeral, pigeonhole for reserved names, induction over the scope forest against a lexical resolver) + correspondence on real scope forests; node vm as search",
+        "text": ("Theorems (Props/C02.v): getName is injective and produces identifier-shaped names; within a scope the assigned names are pairwise different, "
+                 "never a keyword and never the current name of a variable used from outside, however many reserved names intervene; for every scope forest "
+                 "with the parser's invariants (any nesting, any number of bindings) every use resolves after renaming to its own declaration and globals stay "
+                 "unbound; names outside renamed scopes are unchanged; with name keeping nothing changes; the regenerated alphabets have no duplicates. The "
+                 "`with` case is refuted on the model (K14/K15) and excluded by hypothesis. Tie: the extracted model must predict every name the real minifier "
+                 "assigned on the real parser's forest (700 programs per quick run incl. scopes with 3,600 bindings and globals named like generated names; "
+                 "8,400 getName indices); the theorem's hypotheses are measured on every forest."),
+        "note": ("Trusted: Coq kernel, extraction, driver, harness, the verif hook; parse/js scope analysis is run, not modelled (invariants measured); labels, "
+                 "property names and import/export names are outside the model (node oracle only)."),
+    },
     "C06": {
         "engine": "Xml", "design_ref": "DESIGN.md section 4 / C06",
         "technique": "Coq proof (invariant over token lists: words per run preserved; escapers invert) + correspondence on real lexer tokens; encoding/xml walk as search",
